@@ -143,6 +143,10 @@ func runWorkloads(t *testing.T, r *rt.Run, wls []Workload, judge func(g *GWRun) 
 		if k == 7 || (k == 0 && w.Name != wls[0].Name) {
 			r.Sample(map[string]interface{}{"workload": w.Name, "script": g.Script, "trace_head": world.Strings(g.Evs, 14), "antecedents_checked": checked})
 		}
+		if r.Only >= 0 {
+			// replay of one case: the whole trace goes into the journal
+			r.Sample(map[string]interface{}{"replayed_case": g.Desc, "script": g.Script, "trace": world.Strings(g.Evs, 400), "antecedents_checked": checked})
+		}
 	})
 }
 
